@@ -243,10 +243,6 @@ Theorem C03_notted_sibling_distinct_keys : forall a b l1 l2 p,
 Proof. exact notted_sibling_distinct_keys. Qed.
 Print Assumptions C03_notted_sibling_distinct_keys.
 
-(* fact: make takes phash() from, and keeps, the final (possibly Notted) predicate object *)
-Theorem C03_phash_of_final_pred : phash_of_final_pred = true.
-Proof. exact phash_of_final_pred_ok. Qed.
-Print Assumptions C03_phash_of_final_pred.
 
 (* ---- the phash (finding C03-phash-collision characterised) *)
 Theorem C03_phash_equal_iff : forall names kw1 kw2 m1 m2,
